@@ -3,6 +3,12 @@
 import json, sys
 
 CHECKS = {
+ "C15": dict(engine="ENUM", design="§4 C15", technique="bounded-exhaustive enumeration of a frame parameter lattice through the real frame_header/frame_body against an RFC 9113 reference decoder",
+   text="(a) 1.5 million frames (type x flags x stream id x declared length x payload present x pad length) are decoded by the real mux parser and by a reference decoder: accept/reject class, error code, consumed length (exactly 9 + declared payload on accept) and decoded content must agree; no panic.",
+   note="Part (a) only so far: the stateless decoder. Stateful connection behaviour (stream states, floods, GOAWAY classes, other connections keep being served) needs the SIM engine."),
+ "C18": dict(engine="ENUM", design="§4 C18", technique="bounded-exhaustive enumeration of PROXY v2 headers at every truncation through the real parser, plus serialise/parse round trips",
+   text="(a) every PROXY v2 header of the family x command x declared-length lattice (TLV tails, oversized, bad signature/version) at every truncation is parsed by parse_v2_header and compared with a reference (accept / incomplete / reject, consumed length, addresses); every header sozu builds round-trips through into_bytes/parse.",
+   note="Part (a) only so far: the codec. TCP relay byte-exactness, half-close ordering and the three PROXY modes on live sessions need the SIM engine."),
  "C20": dict(engine="ENUM", design="§4 C20", technique="bounded-exhaustive enumeration of generated TOML files (structure lattice, option toggles, scale family, constraint-violating neighbours) through the real loader and a fresh ConfigState",
    text="610 (quick) / 2300+ (thorough, pairwise options) generated configuration files go through Config::load_from_path, generate_config_messages and ConfigState::dispatch: every accepted file must produce commands a fresh state accepts in full and a state containing exactly the declared listeners/clusters/frontends/backends/certificates with the documented defaults the oracle names; reloading must change nothing; 18 constraint-violating neighbours must be rejected at load; sizes 1..1000 per object kind.",
    note="Defaults not named by the oracle are only covered through reload idempotence. TOML grammar slice: see the generator families in harness/src/checks/c20.rs."),
@@ -46,8 +52,6 @@ PLANNED = {
  "C09": "SIM engine (CommandHub) not built yet; planned, see DESIGN.md §4 C09",
  "C13": "SIM engine not built yet; planned, see DESIGN.md §4 C13",
  "C14": "SIM engine not built yet; planned, see DESIGN.md §4 C14",
- "C15": "ENUM/SIM check not built yet; planned, see DESIGN.md §4 C15",
- "C18": "ENUM/SIM check not built yet; planned, see DESIGN.md §4 C18",
 }
 
 def main():
